@@ -505,6 +505,16 @@ theorem layout_transposed (s : Str) (r0 : Row) (c : Cell) (r1 : Row) (l0 : Row) 
           cases transposedRows (List.take ns.length (List.map (fun l => List.drop 2 l) (l0 :: lines))) <;> rfl
         · simp only [hu, Bool.not_false, if_true, Bool.false_eq_true, if_false]
 
+/-- every successful header interpretation delivers exactly one unit per column name -/
+theorem layout_shape (cells : List Row) (L : Layout) (h : layout cells = .ok L) :
+    L.units.length = L.names0.length := by
+  unfold layout at h
+  simp only [bind, Except.bind, pure, Except.pure] at h
+  repeat' (split at h <;> try (simp at h))
+  all_goals (try (subst h; simp_all))
+  all_goals omega
+
+
 /-- destinations: the blank-separated tokens of the trimmed second-row cell (a set: duplicates dropped) -/
 theorem destinations_text (s : Str) : destinations (.str s) = dedup (splitOn ' ' (strip s)) := rfl
 
